@@ -702,11 +702,13 @@ func (ex *Exec) runInit(p *ssa.Package) {
 	}
 	// run with logging/footprint disabled, concretely; nested init calls are skipped by call()
 	sl, sw, sm, sd := ex.logging, ex.onWrite, ex.mergeDepth, ex.depth
-	ex.logging, ex.onWrite, ex.mergeDepth = 0, nil, 0
+	sa := ex.allocBytes // what a package initialiser allocates happens once per process, not per call: not counted
+	ex.logging, ex.onWrite, ex.mergeDepth, ex.allocBytes = 0, nil, 0, nil
 	ex.inInit++
 	defer func() {
 		ex.inInit--
 		ex.logging, ex.onWrite, ex.mergeDepth, ex.depth = sl, sw, sm, sd
+		ex.allocBytes = sa
 	}()
 	// mark the guard so init body runs
 	fr := &frame{fn: init, env: map[ssa.Value]Value{}, ex: ex}
